@@ -30,6 +30,8 @@ DeepKey(ty, pattern) == ty \o "/" \o pattern
 DeepTrack(ty, pattern) ==
   IF DeepKey(ty, pattern) \in DOMAIN deep THEN deep[DeepKey(ty, pattern)] ELSE [maxok |-> 0, minrej |-> -1]
 
+CallEvents == {"Size", "Encode", "Decode", "Deep", "Reject", "Legacy", "Allocs"}
+
 \* rejected calls seen so far in the whole trace: (type, entry, argument kind) -> outcome
 RejKey == Line.ty \o "/" \o Line.entry \o "/" \o Line.arg
 
@@ -49,6 +51,8 @@ Judge ==
                                            THEN FailRoundTrip(Line.ty, cur.vals[Line.orig + 1], Line.in, Line.obs)
                                            ELSE {})])
     [] Line.ev = "Deep" -> JDeep(Line, DeepTrack(Line.ty, Line.pattern))
+    [] Line.ev = "Legacy" -> JLegacy(Line)
+    [] Line.ev = "Allocs" -> JAllocs(Line)
     [] Line.ev = "Reject" -> JReject(Line, IF RejKey \in DOMAIN rej THEN rej[RejKey] ELSE "")
     [] OTHER -> [fail |-> {}, cls |-> "other"]
 
@@ -87,7 +91,7 @@ TraceScenario ==
 
 \* a call whose observed outcome the specification allows
 TraceCall ==
-  /\ l <= Len(Trace) /\ Line.ev \in {"Size", "Encode", "Decode", "Deep", "Reject"}
+  /\ l <= Len(Trace) /\ Line.ev \in CallEvents
   /\ rej' = IF Line.ev = "Reject" /\ Line.obs.out # "crash" THEN (RejKey :> RejSig(Line.obs)) @@ rej ELSE rej
   /\ deep' = IF Line.ev # "Deep" THEN deep
              ELSE LET t == DeepTrack(Line.ty, Line.pattern)
@@ -99,13 +103,13 @@ TraceCall ==
          v == j.fail IN
      /\ IF v = {} THEN ndev' = ndev ELSE Report(v) /\ ndev' = ndev + 1
      /\ Count(j.cls)
-     /\ Call(Line.ty)
+     /\ IF Line.ev = "Legacy" THEN LegacyCall(Line.call) ELSE Call(Line.ty)
   /\ l' = l + 1
   /\ UNCHANGED cur
 
 \* lines that carry no obligation (GC, skipped steps, end marker)
 TraceOther ==
-  /\ l <= Len(Trace) /\ Line.ev \notin {"Scenario", "Size", "Encode", "Decode", "Deep", "Reject"}
+  /\ l <= Len(Trace) /\ Line.ev \notin CallEvents \cup {"Scenario"}
   /\ l' = l + 1
   /\ UNCHANGED <<cur, ndev, deep, rej, used, cfg, ncalls>>
 
